@@ -307,8 +307,24 @@ func c17Run(in0 interface{}) Result {
 		h := compile(mids, handlerFunc(func(w http.ResponseWriter, r *http.Request) (int, error) { return 404, nil }))
 		req := httptest.NewRequest("POST", "http://example.test/up", &scriptReader{data: bodyOf(in.BodyLen), script: append([]int(nil), in.Script...), eofd: in.EOFD})
 		req.ContentLength = -1
-		status, _ := h.ServeHTTP(httptest.NewRecorder(), req)
 		over := int64(in.BodyLen) > lim
+		// a reader that stops making progress would keep the transport copying forever
+		if c17Stuck >= 2 {
+			return Result{Term: "(CStatus false 0%Z)", Obs: "skipped: earlier cases never returned", Class: "status:stuck", Sig: fmt.Sprintf("status:over=%v", over), Direct: "proxied upload never returned (earlier cases hung)"}
+		}
+		done := make(chan int, 1)
+		go func() {
+			st, _ := h.ServeHTTP(httptest.NewRecorder(), req)
+			done <- st
+		}()
+		var status int
+		select {
+		case status = <-done:
+		case <-time.After(5 * time.Second):
+			c17Stuck++
+			backend.CloseClientConnections() // else the deferred Close waits for the stuck upload
+			return Result{Term: "(CStatus false 0%Z)", Obs: "handler did not return within 5s", Class: "status:stuck", Sig: fmt.Sprintf("status:over=%v", over), Direct: "proxied upload: handler did not return within 5s"}
+		}
 		return Result{Term: cApp("CStatus", cBool(over), cZ(int64(status))), Obs: status, Sig: fmt.Sprintf("status:over=%v", over), Nontrivial: over, Class: fmt.Sprintf("status:over=%v", over)}
 	}
 	panic("bad kind " + in.Kind)
@@ -858,6 +874,8 @@ type c17BackendRec struct {
 	prefix bool
 }
 
+var c17Stuck int // uploads that were never answered (a reader that stops making progress)
+
 var (
 	c17Once     sync.Once
 	c17Backends [2]*httptest.Server
@@ -922,6 +940,11 @@ func c17RunSite(in *c17In) Result {
 	fail := func(msg string) Result {
 		return Result{Term: "(CStatus false 0%Z)", Obs: msg, Class: "site:setup-error", Sig: "site:setup-error", Direct: msg}
 	}
+	if c17Stuck >= 2 {
+		r := fail("site case skipped: earlier uploads were never answered")
+		r.Sig, r.Class = "site:stuck", "site:stuck"
+		return r
+	}
 	site, err := getSite(c17SiteText(in.Limit))
 	if err != nil {
 		return fail("site start: " + err.Error())
@@ -969,11 +992,18 @@ func c17RunSite(in *c17In) Result {
 		return fail("dial: " + err.Error())
 	}
 	defer conn.Close()
-	conn.SetDeadline(time.Now().Add(8 * time.Second))
+	conn.SetDeadline(time.Now().Add(5 * time.Second))
 	go conn.Write(sb.Bytes())
 	br := bufio.NewReader(conn)
 	status, followup := -1, -2
-	if r1, err := http.ReadResponse(br, &http.Request{Method: "POST"}); err == nil {
+	r1, err := http.ReadResponse(br, &http.Request{Method: "POST"})
+	if ne, ok := err.(net.Error); ok && ne.Timeout() {
+		c17Stuck++
+		r := fail("upload was not answered within 5s")
+		r.Sig, r.Class = "site:stuck", "site:stuck"
+		return r
+	}
+	if err == nil {
 		io.Copy(io.Discard, r1.Body)
 		r1.Body.Close()
 		status = r1.StatusCode
